@@ -281,6 +281,10 @@ func BinBV(op string, a, b *Term) *Term {
 		if b.isConst() && b.val == 1 {
 			return a
 		}
+	case "bvurem":
+		if b.isConst() && b.val == 1 {
+			return BV(w, 0)
+		}
 	case "bvand":
 		if a == b {
 			return a
